@@ -332,3 +332,21 @@ FIXED_TEXTS = [
     'x eq 1 and y', 'x and y', 'x eq 1 and and y eq 2', 'x eq 1 or or y eq 2', '()', '( )', 'not ()', 'x eq (1)', 'x eq 1.0e5', 'x eq 1.0e', 'x eq 1.e5',
     'x eq 0.5', 'x eq .5', 'x eq 00.5', 'x eq 0', 'x eq 00', 'x eq -0', 'x eq 0.0.0', 'x eq 1.02.3', 'x.y.z.w pr', 'x.y. pr', '.x pr', 'x pr pr', 'x eq 1 pr',
 ]
+
+# ----------------------------------------------------------------------------
+# corpus: the inputs of every defect found so far (fixed entries of known_findings.json stay here)
+# ----------------------------------------------------------------------------
+CORPUS = [
+    ('y == 1 and x.a == 1', obj({'y': I(1)})), ('x.a.b == 1 or z == 1', obj({'z': I(1)})), ('y eq 1 and x.y pr', obj({'y': I(1)})),
+    ('x.a == 1 and y == 1', obj({'y': I(1)})),
+    ('x eq 1', obj({'x': F(1.7)})), ('x gt 1', obj({'x': F(1.7)})), ('x lt 0', obj({'x': F(-0.5)})), ('x lt 1', obj({'x': F(float('nan'))})),
+    ('x lt 5', obj({'x': F(float('inf'))})), ('x eq 2', obj({'x': F(2.0)})),
+    ('x eq 1 AND y eq 2', obj({'x': I(1), 'y': I(2)})), ('x eq 1 garbage', obj({'x': I(1)})), ('x lt 1e5', obj({'x': I(0)})), ('x eq 01', obj({'x': I(1)})),
+    ('not x eq 1', obj({'x': I(2)})), ('x eq 1\n and y eq 2', obj({'x': I(1), 'y': I(2)})), ('(x eq 1', obj({'x': I(1)})), ('x eq 1)', obj({'x': I(1)})),
+    (' x eq 1\n', obj({'x': I(1)})),
+    ('a gt null or b le "bc" or k in [1]', obj({})), ('a gt null or b eq 99999999999999999999', obj({})), ('not (a gt null) and b eq 99999999999999999999', obj({})),
+    ('x in [1,2]', obj({})), ('x in ["a"]', obj({})), ('x in [1.5]', obj({})), ('x eq 1.2.3', obj({})), ('x eq 1.0e999', obj({})),
+    ('x in [1,2]', obj({'x': F(1.0)})), ('x in [1,2]', obj({'x': ('i64', 2)})), ('x in [1,2]', obj({'x': ('i32', 1)})), ('x in ["ABC"]', obj({'x': S('abc')})),
+    ('x le 1.5', obj({'x': S('s')})), ('x lt 1.5', obj({'x': S('s')})),
+    ('x eq "a"', obj({'x': ('strselfpanic',)})), ('x eq 1', obj({'x': ('strselfpanic',)})),
+]
